@@ -116,7 +116,8 @@ type declSpec struct {
 	Sbu    bool       `json:"sbu"`
 	Ptr    bool       `json:"ptr"`
 	Custom *customCfg `json:"custom"`
-	// DefShare: Strings declarations naming the same key are given the very same default slice
+	// DefShare: multi-valued declarations of one kind naming the same key are given the very same default slice
+	// (a key starting with "G:" is shared by all the applications of the process)
 	// (as a user who reuses one variable for several defaults would)
 	DefShare string `json:"defshare"`
 	// Conv: declare through the positional convenience API (cmd.BoolOpt(name, value, desc), ...); only
@@ -405,7 +406,36 @@ func parseFloatS(d *declSpec, s string) float64 {
 
 // declare executes one declaration on cmd and returns the record of the declared variable.
 // Library panics (duplicate names, ...) propagate.
-func declare(cmd *cli.Cmd, d *declSpec, path string, sharedDefs map[string][]string) *varRec {
+// Default slices shared between declarations. A key starting with "G:" lives for the whole process:
+// applications built one after another, or concurrently, from declarations naming the same key are
+// given the very same default slice object, as a program that keeps its defaults in package-level
+// variables would; any other key is local to one case.
+var (
+	globalDefsMu sync.Mutex
+	globalDefs   = map[string]interface{}{}
+)
+
+func shareDef[T any](key string, def []T, local map[string]interface{}) []T {
+	if key == "" || local == nil {
+		return def
+	}
+	m := local
+	if strings.HasPrefix(key, "G:") {
+		globalDefsMu.Lock()
+		defer globalDefsMu.Unlock()
+		m = globalDefs
+	}
+	if shared, ok := m[key]; ok {
+		if sl, ok := shared.([]T); ok {
+			return sl
+		}
+		return def
+	}
+	m[key] = def
+	return def
+}
+
+func declare(cmd *cli.Cmd, d *declSpec, path string, sharedDefs map[string]interface{}) *varRec {
 	name, desc, env := string(d.Name), string(d.Desc), string(d.Env)
 	isOpt := false
 	switch d.T {
@@ -570,13 +600,7 @@ func declare(cmd *cli.Cmd, d *declSpec, path string, sharedDefs map[string][]str
 		if len(d.Def) > 0 {
 			def = strs(d.Def)
 		}
-		if d.DefShare != "" && sharedDefs != nil {
-			if shared, ok := sharedDefs[d.DefShare]; ok {
-				def = shared
-			} else {
-				sharedDefs[d.DefShare] = def
-			}
-		}
+		def = shareDef(d.DefShare, def, sharedDefs)
 		if conv {
 			var ptr *[]string
 			switch {
@@ -615,6 +639,7 @@ func declare(cmd *cli.Cmd, d *declSpec, path string, sharedDefs map[string][]str
 		for _, s := range d.Def {
 			def = append(def, parseIntS(d, string(s)))
 		}
+		def = shareDef(d.DefShare, def, sharedDefs)
 		if conv {
 			var ptr *[]int
 			switch {
@@ -665,6 +690,7 @@ func declare(cmd *cli.Cmd, d *declSpec, path string, sharedDefs map[string][]str
 		for _, s := range d.Def {
 			def = append(def, parseFloatS(d, string(s)))
 		}
+		def = shareDef(d.DefShare, def, sharedDefs)
 		if conv {
 			var ptr *[]float64
 			switch {
@@ -839,7 +865,7 @@ type runCtx struct {
 	vars   []*varRec
 	values map[string][]B
 	sbu    map[string]bool
-	shared map[string][]string // default slices shared between declarations of this case
+	shared map[string]interface{} // default slices shared between declarations of this case
 	// afterRootDecls: called once, right after the root's own declarations (Version declared last)
 	afterRootDecls func()
 }
@@ -935,7 +961,7 @@ func (r *runCtx) configure(cmd *cli.Cmd, c *cmdSpec, path string) {
 // runCase builds and runs one application. stderr may be nil (op conc), in which case no stderr is reported.
 // The IO hooks and the environment must already be in place.
 func runCase(req *request, stderr *bytes.Buffer) *runOut {
-	r := &runCtx{trace: []B{}, shared: map[string][]string{}}
+	r := &runCtx{trace: []B{}, shared: map[string]interface{}{}}
 	out := &runOut{ID: req.ID}
 	var returned error
 
@@ -1143,7 +1169,7 @@ func opLex(req *request) interface{} {
 func declApp(decls []declSpec) *cli.Cli {
 	app := cli.App("app", "")
 	for i := range decls {
-		declare(app.Cmd, &decls[i], "app", map[string][]string{})
+		declare(app.Cmd, &decls[i], "app", map[string]interface{}{})
 	}
 	return app
 }
